@@ -79,3 +79,51 @@ func (node *Node) VerifCheck(ctx context.Context) error { return node.check(ctx)
 func (node *Node) VerifHandleMessage(ctx context.Context, msg wire.Message) error {
 	return node.handleMessage(ctx, msg)
 }
+
+// VerifProcessOne is one iteration of processBlocks (without the refeeder): the same calls in the
+// same order.  Returns the popped block (nil when none), the error of ProcessBlock and whether the
+// loop would have exited.
+func (node *Node) VerifProcessOne(ctx context.Context) (wire.Block, error) {
+	block := node.state.NextBlock()
+	if block == nil {
+		return nil, nil
+	}
+	err := node.ProcessBlock(ctx, block)
+	getBlocks := wire.NewMsgGetData()
+	for {
+		requestHash, _ := node.state.GetNextBlockToRequest()
+		if requestHash == nil {
+			break
+		}
+		getBlocks.AddInvVect(wire.NewInvVect(wire.InvTypeBlock, requestHash))
+	}
+	if len(getBlocks.InvList) > 0 {
+		node.queueOutgoing(getBlocks)
+	}
+	return block, err
+}
+
+// VerifProcessAll runs the real processBlocks goroutine until no buffered block is ready.
+func (node *Node) VerifProcessAll(ctx context.Context) {
+	done := make(chan struct{})
+	go func() {
+		node.processBlocks(ctx)
+		close(done)
+	}()
+	idle := 0
+	for idle < 4 {
+		time.Sleep(10 * time.Millisecond)
+		if node.state.VerifHeadReady() {
+			idle = 0
+		} else {
+			idle++
+		}
+	}
+	node.lock.Lock()
+	node.stopping = true
+	node.lock.Unlock()
+	<-done
+	node.lock.Lock()
+	node.stopping = false
+	node.lock.Unlock()
+}
